@@ -499,7 +499,7 @@ ORACLES = dict(lockstep=oracle_lockstep, abor_order=oracle_abor_order, commands=
 
 
 # ---------------------------------------------------------------------------------------------- generators
-TEXTS = [b"file.txt", b"dir/sub", b"a b", b"", b"x" * 40, b"\xff\x00z", b"-l", b"*"]
+TEXTS = [b"file.txt", b"dir/sub", b"a b", b"", b"x" * 40, b"\xff\x00z", b"-l", b"*", b"nul\x00inside", b"\x00.bak"]
 SIMPLE = [(b"CWD", True), (b"CDUP", False), (b"PWD", False), (b"DELE", True), (b"MKD", True), (b"RMD", True), (b"SIZE", True),
           (b"MDTM", True), (b"STAT", None), (b"SYST", False), (b"HELP", None), (b"SITE", True), (b"NOOP", False)]
 
@@ -752,10 +752,17 @@ def fam_downloads(rng, n, dist, thorough=False):
         else:
             b = S.Builder(rng, mode, rfc, type="I", ip6=(i % 7 == 3))
         b.connect(login=(b"u", b"p"))
+        refused_type = rng.random() < 0.3
+        if refused_type:
+            # TYPE A refused: the session stays binary - for the server and for what the client does to the bytes
+            b.set_type("A", rng.choice([504, 500, 501, 502]))
+            dist.add("download:after-a-refused-TYPE-A")
         for _ in range(rng.randrange(1, 4)):
             size = rng.choice(sizes)
             data = bytes(rng.randrange(256) for _ in range(min(size, 4096))) * (size // 4096 + 1)
             data = data[:size]
+            if refused_type and size >= 16:
+                data = b"a\r\nb\nc\rd\r\r\n" + data[11:]
             style = rng.choice(["one", "tiny", "mss", "mixed", "trickle"])
             segs, pos = [], 0
             while pos < size:
@@ -1009,9 +1016,15 @@ def fam_uploads(rng, n, dist, thorough=False):
         else:
             b = S.Builder(rng, mode, rfc, type="I", ip6=(i % 7 == 3))
         b.connect(login=(b"u", b"p"))
+        refused_type = rng.random() < 0.3
+        if refused_type:
+            b.set_type("A", rng.choice([504, 500, 501, 502]))
+            dist.add("upload:after-a-refused-TYPE-A")
         for _ in range(rng.randrange(1, 4)):
             size = rng.choice(sizes)
             data = (bytes(rng.randrange(256) for _ in range(min(size, 4096))) * (size // 4096 + 1))[:size]
+            if refused_type and size >= 16:
+                data = b"a\r\nb\nc\rd\r\r\n" + data[11:]
             if rng.random() < 0.5:
                 # 0xFF (-1 as a char, EOF as an int) and 0x00 exactly where a new block begins, and at the very end
                 data = bytearray(data)
@@ -1235,6 +1248,27 @@ def fam_args(rng, n, dist):
             else:
                 b.transfer("F", t1, payload_segs=[b"l\r\n"])
         dist.add("args:kind-%d:%s" % (which, "rejected" if (bad1 or (which in (0, 1, 2) and bad2)) else "sent"))
+        b.simple(b"NOOP", None, 200)
+        b.disconnect(True)
+        out.append(b.scenario())
+    return out
+
+
+def fam_linelen(rng, n, dist):
+    """command lines of every length in windows around 128, 256, 512, 1024, 2048, 4096, 8192, 16384: each one line, each
+    ended by CR LF, the next command a line of its own"""
+    out = []
+    centres = [128, 256, 512, 1024, 2048, 4096, 8192, 16384]
+    for i in range(n):
+        tls = (i % 3 == 2)
+        b = S.Builder(rng, *rng.choice(ALL_METHODS), tls=tls, resume=False, tlsver="12") if tls else S.Builder(rng, *rng.choice(ALL_METHODS))
+        b.connect(login=None)
+        c = centres[i % len(centres)]
+        verb = rng.choice([b"CWD", b"DELE", b"SITE", b"MKD"])
+        for total in range(c - 6, c + 5):
+            arg = bytes(rng.choice(b"abcdefghij/._-") for _ in range(total - len(verb) - 1))
+            b.simple(verb, arg, 250)
+        dist.add("linelen:around-%d%s" % (c, ":tls" if tls else ""))
         b.simple(b"NOOP", None, 200)
         b.disconnect(True)
         out.append(b.scenario())
@@ -1787,7 +1821,7 @@ def fam_dispatch(rng, n, dist):
 
 ORACLES.update(tls=oracle_tls, reuse=oracle_reuse, endpoints=oracle_endpoints)
 
-FAMILIES = dict(tlsplain=lambda r, n, d, th: fam_tlsplain(r, n, d), mixed=lambda rng, n, dist, th: gen_mixed(rng, "quick", dist, n), observers=lambda r, n, d, th: fam_observers(r, n, d),
+FAMILIES = dict(linelen=lambda r, n, d, th: fam_linelen(r, n, d), tlsplain=lambda r, n, d, th: fam_tlsplain(r, n, d), mixed=lambda rng, n, dist, th: gen_mixed(rng, "quick", dist, n), observers=lambda r, n, d, th: fam_observers(r, n, d),
                 abor=lambda r, n, d, th: fam_abor(r, n, d), downloads=fam_downloads, uploads=fam_uploads, ascii=fam_ascii, faults=fam_faults,
                 refusals=lambda r, n, d, th: fam_refusals(r, n, d), cancel=lambda r, n, d, th: fam_cancel(r, n, d),
                 args=lambda r, n, d, th: fam_args(r, n, d), tls=lambda r, n, d, th: fam_tls(r, n, d),
@@ -1798,9 +1832,9 @@ FAMILIES = dict(tlsplain=lambda r, n, d, th: fam_tlsplain(r, n, d), mixed=lambda
 PROPS = {
     # id: families with their share of the scenario budget, correspondence projections, oracles
     "C02": dict(fam=[("mixed", 5), ("abor", 2), ("refusals", 1), ("tls", 1)], proj=["out", "state", "wire"], oracles=["lockstep", "abor_order"]),
-    "C09": dict(fam=[("args", 4), ("mixed", 2), ("reconnect", 2)], proj=["out", "wire"], oracles=["commands"]),
+    "C09": dict(fam=[("args", 4), ("mixed", 2), ("reconnect", 2), ("linelen", 1)], proj=["out", "wire"], oracles=["commands"]),
     "C10": dict(fam=[("mixed", 6), ("args", 1), ("refusals", 1), ("tls", 2), ("typefault", 1)], proj=["out", "state", "wire"], oracles=["commands", "state"]),
-    "C14": dict(fam=[("observers", 5), ("mixed", 2)], proj=["out", "obs"], oracles=["observers", "terminates"], variant="asan"),
+    "C14": dict(fam=[("observers", 5), ("mixed", 2)], proj=["out", "obs"], oracles=["observers", "terminates", "commands"], variant="asan"),
     "C03": dict(fam=[("downloads", 6), ("mixed", 1), ("ascii", 1)], proj=["out", "io"], oracles=["transfers"]),
     "C04": dict(fam=[("uploads", 6), ("mixed", 1), ("ascii", 1)], proj=["out", "io", "wire"], oracles=["transfers"]),
     "C07": dict(fam=[("refusals", 6), ("mixed", 1)], proj=["out", "io", "held", "wire"], oracles=["transfers", "sockets", "lockstep"]),
